@@ -179,6 +179,32 @@ def check_cases(ctx, cases):
         # two objects built from the same arguments are equal, with equal hashes
         if not (o == twin) or (before["hash"] != "unhashable" and before["hash"] != hash(twin)):
             ctx.fail(case, "two objects built from the same arguments are not equal / hash differently", "same-args-not-equal")
+        # an equal object built another way: nested dicts filled in the reverse order, numbers replaced
+        # by equal numbers of another type (1 / 1.0 / True).  If the two compare equal, their hashes
+        # (when defined) must be equal too.
+        kw2 = {k: respell(v) if isinstance(v, dict) else v for k, v in copy.deepcopy(kwargs).items()}
+        if any(isinstance(v, dict) for v in kwargs.values()):
+            try:
+                o_resp = objgen.build(name, kw2)
+            except (ValueError, TypeError):
+                o_resp = None
+            if o_resp is not None and o_resp == o:
+                ctx.count("channel=equal-by-another-spelling")
+                try:
+                    h1, h2 = hash(o), hash(o_resp)
+                except TypeError:
+                    h1 = h2 = None
+                    ctx.count("equal-by-another-spelling:unhashable")
+                if h1 != h2:
+                    ctx.fail(case, "two objects that compare equal (nested mapping filled in another order / equal numbers of another type) have different hashes", "equal-but-different-hash:respelled")
+                for fk in kwargs:
+                    a, b = getattr(o, fk, None), getattr(o_resp, fk, None)
+                    if isinstance(a, ImmutableDict) and a == b:
+                        try:
+                            if hash(a) != hash(b):
+                                ctx.fail(dict(case, field=fk), "two frozen mappings that compare equal have different hashes", "frozenmap-equal-but-different-hash")
+                        except TypeError:
+                            pass
         # the same arguments with every mapping already frozen by the caller: construction must not
         # change a frozen mapping, and building twice from the same arguments gives equal objects
         fkw = {k: (ImmutableDict(copy.deepcopy(v)) if isinstance(v, dict) else v) for k, v in kwargs.items()}
@@ -318,6 +344,21 @@ def check_cases(ctx, cases):
             ctx.disagree(case, "object built from a container that is mutated afterwards: model (copying constructor) vs implementation", model=m["observed"], impl=impl)
         if kind == "eqf" and m["fields"] != impl:
             ctx.disagree(case, "eq fields: regenerated table vs attrs", model=m["fields"], impl=impl)
+
+
+def respell(v):
+    """an equal value spelled differently: dicts rebuilt in reverse insertion order, ints <-> equal floats/bools"""
+    if isinstance(v, dict):
+        return {k: respell(x) for k, x in reversed(list(v.items()))}
+    if isinstance(v, list):
+        return [respell(x) for x in v]
+    if isinstance(v, tuple):
+        return tuple(respell(x) for x in v)
+    if v is True:
+        return 1
+    if isinstance(v, int) and not isinstance(v, bool) and abs(v) < 2**50:
+        return float(v)
+    return v
 
 
 def thaw(v):
